@@ -879,6 +879,27 @@ fn strings(out: &mut Vec<Decl>) {
         d.default = Some(DefaultSpec { macro_text: mt.into(), neutral_text: mt.into(), class: class.into() });
         out.push(with_derives(d, &[Tr::Debug, Tr::Clone, Tr::PartialEq, Tr::Default, Tr::TryFrom]));
     }
+    // contradictory expression-valued length bounds: every string violates a rule, many violate both,
+    // and the reported variant must still be the first violated rule in the declared order
+    {
+        let km = || spelled("const", "k::KM", "k::KM", Num::U(3), false);
+        let ka = || spelled("const", "KA", "KA", Num::U(5), false);
+        for (i, vals) in [
+            vec![ValSpec::LenCharMin(ka()), ValSpec::LenCharMax(km())],
+            vec![ValSpec::LenCharMax(km()), ValSpec::LenCharMin(ka())],
+            vec![ValSpec::NotEmpty, ValSpec::LenCharMin(ka()), ValSpec::LenCharMax(km()), ValSpec::Predicate(f("p_has_at", FnForm::Path))],
+            vec![ValSpec::Predicate(f("p_has_at", FnForm::Closure)), ValSpec::LenCharMax(km()), ValSpec::LenCharMin(ka())],
+        ]
+        .into_iter()
+        .enumerate()
+        {
+            let mut d = std(Decl::new(inner), vals).tag(&format!("str-contradictory-expr:{i}"));
+            if i % 2 == 1 {
+                d.sans = vec![SanSpec::Trim];
+            }
+            out.push(with_derives(d, &[Tr::Debug, Tr::Clone, Tr::PartialEq, Tr::TryFrom, Tr::FromStr, Tr::Deserialize]));
+        }
+    }
     // Arbitrary
     let arb_vals: Vec<(&str, Vec<ValSpec>)> = {
         use ValSpec::*;
@@ -1033,7 +1054,15 @@ fn others(out: &mut Vec<Decl>) {
     tw.twin_of = Some("PREV".into());
     tw.derives = full_derives(&tw);
     out.push(base);
-    out.push(tw);
+    out.push(tw.clone());
+    // generic declaration whose default depends on the instantiation (`T::default()`): valid at PosPoint, invalid at Point
+    let mut gd = tw;
+    gd.twin_of = None;
+    gd.twin_kind = None;
+    gd.tags = vec!["generic-default-depends-on-T".into()];
+    gd.default = Some(DefaultSpec { macro_text: "T::default()".into(), neutral_text: "Point::default()".into(), class: "generic-depends-on-T".into() });
+    gd.derives = vec![Tr::Debug, Tr::Clone, Tr::PartialEq, Tr::Default];
+    out.push(gd);
     for (sans, pred) in [(vec!["s_sort"], Some("p_nonempty")), (vec!["s_dedup"], None), (vec![], Some("p_short"))] {
         let mut base = Decl::new(Inner::VecI32);
         base.sans = sans.iter().map(|n| SanSpec::With(f(n, FnForm::Closure))).collect();
